@@ -404,3 +404,660 @@ Proof.
     change (ccm_of_word 0) with (mkCCMetric false 0 0) in *.
     unfold enc_metric at 1 2. cbn [mb_received]. auto.
 Qed.
+
+(* ---------------------------------------------------------------------------------------------- *)
+(* C08: encoder limits                                                                             *)
+(* ---------------------------------------------------------------------------------------------- *)
+(* writes into a buffer keep its length; they panic only when the offset is out of range *)
+Lemma copy_at_len dst off src : off <= len dst -> exists r, copy_at dst off src = Ok r /\ len r = len dst.
+Proof.
+  intros H. unfold copy_at. destruct (N.ltb_spec (len dst) off); [lia|]. eexists. split; [reflexivity|].
+  unfold len in *. rewrite !app_length, !firstn_length, skipn_length. lia.
+Qed.
+Lemma put_be_at_len k dst off x : off + N.of_nat k <= len dst -> exists r, put_be_at k dst off x = Ok r /\ len r = len dst.
+Proof.
+  intros H. unfold put_be_at. destruct (N.ltb_spec (len dst) (off + N.of_nat k)); [lia|]. apply copy_at_len. lia.
+Qed.
+Ltac put_ok :=
+  match goal with
+  | |- context [put_be_at ?k ?d ?o ?x] =>
+      let r := fresh "buf" in let E := fresh "E" in let L := fresh "L" in
+      destruct (put_be_at_len k d o x) as (r & E & L); [cbn [N.of_nat Pos.of_succ_nat Pos.succ]; try lia | rewrite E; cbn [bind]]
+  end.
+Ltac copy_ok :=
+  match goal with
+  | |- context [copy_at ?d ?o ?x] =>
+      let r := fresh "buf" in let E := fresh "E" in let L := fresh "L" in
+      destruct (copy_at_len d o x) as (r & E & L); [try lia | rewrite E; cbn [bind]]
+  end.
+
+Lemma nlen_cons {A} (x : A) l : nlen (x :: l) = 1 + nlen l.
+Proof. unfold nlen. cbn [length]. lia. Qed.
+
+(* ---- reception reports, SR, RR ---- *)
+Lemma RRep_marshal_ok r : rr_lost r < 16777216 -> exists d, RRep_marshal r = Ok d /\ len d = 24.
+Proof.
+  intros H. unfold RRep_marshal. consts. pose proof (len_zeros 24) as L0.
+  put_ok. copy_ok. destruct (N.leb_spec 16777216 (rr_lost r)); [lia|].
+  copy_ok. put_ok. put_ok. put_ok. put_ok. eexists. split; [reflexivity|lia].
+Qed.
+Lemma RRep_marshal_err r : 16777216 <= rr_lost r -> RRep_marshal r = Err.
+Proof.
+  intros H. unfold RRep_marshal. consts. pose proof (len_zeros 24) as L0.
+  put_ok. copy_ok. destruct (N.leb_spec 16777216 (rr_lost r)); [reflexivity|lia].
+Qed.
+Definition lost_ok (r : RRep) : bool := rr_lost r <? 16777216.
+Lemma put_reports_cases : forall rs raw off, off + 24 * nlen rs <= len raw ->
+  (forallb lost_ok rs = true -> exists raw', put_reports raw off rs = Ok (raw', off + 24 * nlen rs) /\ len raw' = len raw) /\
+  (forallb lost_ok rs = false -> put_reports raw off rs = Err).
+Proof.
+  induction rs as [|r rs IH]; intros raw off Hl.
+  - split; [|discriminate]. intros _. exists raw. cbn [put_reports]. unfold nlen. cbn [length N.of_nat]. split; [f_equal; f_equal; lia|reflexivity].
+  - rewrite nlen_cons in *. cbn [put_reports forallb]. unfold lost_ok at 1 3.
+    destruct (N.ltb_spec (rr_lost r) 16777216) as [Hr|Hr].
+    + destruct (RRep_marshal_ok r Hr) as (d & Ed & Ld). rewrite Ed. cbn [bind andb].
+      copy_ok. consts. destruct (IH buf (off + 24) ltac:(lia)) as [I1 I2]. split.
+      * intros Hf. destruct (I1 Hf) as (raw' & E' & L'). exists raw'. rewrite E'. split; [f_equal; f_equal; lia|lia].
+      * intros Hf. apply I2. exact Hf.
+    + cbn [andb]. split; [discriminate|]. intros _. rewrite RRep_marshal_err by lia. reflexivity.
+Qed.
+
+Lemma SR_limits s : in_limits (PSR s) = false -> SR_marshal s = Err.
+Proof.
+  cbn [in_limits]. intros H. unfold SR_marshal. pose proof (len_zeros (SR_size s)) as L0.
+  unfold SR_size in L0 at 2. consts.
+  put_ok. put_ok. put_ok. put_ok. put_ok.
+  destruct (put_reports_cases (sr_reports s) buf3 (4 + 24) ltac:(lia)) as [I1 I2].
+  fold lost_ok in H. destruct (forallb lost_ok (sr_reports s)).
+  - destruct (I1 eq_refl) as (raw' & E' & L'). rewrite E'. cbn [bind].
+    rewrite andb_true_r in H. unfold nl in H. unfold nlen.
+    destruct (N.leb_spec (N.of_nat (length (sr_reports s))) 31); [discriminate|].
+    destruct (N.ltb_spec 31 (N.of_nat (length (sr_reports s)))); [reflexivity|lia].
+  - rewrite (I2 eq_refl). reflexivity.
+Qed.
+
+Lemma RR_limits r : in_limits (PRR r) = false -> RR_marshal r = Err.
+Proof.
+  cbn [in_limits]. intros H. unfold RR_marshal. pose proof (len_zeros (RR_size r)) as L0.
+  unfold RR_size in L0 at 2. consts.
+  put_ok.
+  destruct (put_reports_cases (rcv_reports r) buf (4 + 4) ltac:(lia)) as [I1 I2].
+  fold lost_ok in H. destruct (forallb lost_ok (rcv_reports r)).
+  - destruct (I1 eq_refl) as (raw' & E' & L'). rewrite E'. cbn [bind].
+    rewrite andb_true_r in H. unfold nl in H. unfold nlen.
+    destruct (N.leb_spec (N.of_nat (length (rcv_reports r))) 31); [discriminate|].
+    destruct (N.ltb_spec 31 (N.of_nat (length (rcv_reports r)))); [reflexivity|lia].
+  - rewrite (I2 eq_refl). reflexivity.
+Qed.
+
+(* ---- SDES ---- *)
+Definition item_ok (i : SItem) : bool := negb (it_type i =? 0) && (len (it_text i) <=? 255).
+Lemma items_marshal_cases : forall its,
+  (forallb item_ok its = true -> exists b, items_marshal its = Ok b /\ len b = fold_right (fun it acc => SItem_len it + acc) 0 its) /\
+  (forallb item_ok its = false -> items_marshal its = Err).
+Proof.
+  induction its as [|it its [I1 I2]]; cbn [items_marshal forallb fold_right].
+  - split; [|discriminate]. intros _. exists []. split; reflexivity.
+  - unfold item_ok at 1 3. unfold SItem_marshal. consts.
+    destruct (N.eqb_spec (it_type it) 0) as [Ht|Ht]; cbn [negb andb bind].
+    { split; [discriminate|reflexivity]. }
+    destruct (N.leb_spec (len (it_text it)) 255) as [Hl|Hl].
+    + destruct (N.ltb_spec 255 (len (it_text it))); [lia|]. cbn [bind]. split.
+      * intros Hf. destruct (I1 Hf) as (b & Eb & Lb). rewrite Eb. cbn [bind]. eexists. split; [reflexivity|].
+        rewrite !len_app, Lb. unfold SItem_len. consts. rewrite !len_cons, len_nil. lia.
+      * intros Hf. rewrite (I2 Hf). reflexivity.
+    + destruct (N.ltb_spec 255 (len (it_text it))); [|lia]. split; [discriminate|reflexivity].
+Qed.
+Definition schunk_ok (c : SChunk) : bool := forallb item_ok (ch_items c).
+Lemma SChunk_marshal_cases c :
+  (schunk_ok c = true -> exists d, SChunk_marshal c = Ok d /\ len d = SChunk_len c) /\
+  (schunk_ok c = false -> SChunk_marshal c = Err).
+Proof.
+  unfold schunk_ok, SChunk_marshal. destruct (items_marshal_cases (ch_items c)) as [I1 I2]. split; intros H.
+  - destruct (I1 H) as (b & Eb & Lb). rewrite Eb. cbn [bind]. eexists. split; [reflexivity|].
+    rewrite len_app, len_zeros. unfold SChunk_len. consts. rewrite !len_app, len_be, Lb, len_cons, len_nil.
+    cbn [N.of_nat Pos.of_succ_nat Pos.succ].
+    replace (4 + (fold_right (fun it acc => SItem_len it + acc) 0 (ch_items c) + (1 + 0)))
+      with (4 + fold_right (fun it acc => SItem_len it + acc) 0 (ch_items c) + 1) by lia.
+    reflexivity.
+  - rewrite (I2 H). reflexivity.
+Qed.
+Lemma put_chunks_cases : forall cs raw off, off + fold_right (fun c acc => SChunk_len c + acc) 0 cs <= len raw ->
+  (forallb schunk_ok cs = true -> exists raw', put_chunks raw off cs = Ok raw' /\ len raw' = len raw) /\
+  (forallb schunk_ok cs = false -> put_chunks raw off cs = Err).
+Proof.
+  induction cs as [|c cs IH]; intros raw off Hl; cbn [put_chunks forallb fold_right] in *.
+  - split; [|discriminate]. intros _. exists raw. auto.
+  - destruct (SChunk_marshal_cases c) as [C1 C2]. destruct (schunk_ok c); cbn [andb].
+    + destruct (C1 eq_refl) as (d & Ed & Ld). rewrite Ed. cbn [bind]. copy_ok.
+      destruct (IH buf (off + len d) ltac:(lia)) as [I1 I2]. split; intros Hf.
+      * destruct (I1 Hf) as (raw' & E' & L'). exists raw'. split; [exact E'|lia].
+      * apply I2. exact Hf.
+    + split; [discriminate|]. intros _. rewrite (C2 eq_refl). reflexivity.
+Qed.
+Lemma SDES_limits s : in_limits (PSDES s) = false -> SDES_marshal s = Err.
+Proof.
+  cbn [in_limits]. intros H. unfold SDES_marshal. pose proof (len_zeros (SDES_size s)) as L0.
+  unfold SDES_size in L0 at 2. consts.
+  destruct (put_chunks_cases (sd_chunks s) (zeros (SDES_size s)) 4 ltac:(lia)) as [I1 I2].
+  change (forallb (fun c => forallb (fun i => negb (it_type i =? 0) && (len (it_text i) <=? 255)) (ch_items c)) (sd_chunks s))
+    with (forallb schunk_ok (sd_chunks s)) in H.
+  destruct (forallb schunk_ok (sd_chunks s)).
+  - destruct (I1 eq_refl) as (raw' & E' & L'). rewrite E'. cbn [bind].
+    rewrite andb_true_r in H. unfold nl in H. unfold nlen.
+    destruct (N.leb_spec (N.of_nat (length (sd_chunks s))) 31); [discriminate|].
+    destruct (N.ltb_spec 31 (N.of_nat (length (sd_chunks s)))); [reflexivity|lia].
+  - rewrite (I2 eq_refl). reflexivity.
+Qed.
+
+(* ---- BYE ---- *)
+Lemma put_u32s_ok : forall l raw off, off + 4 * nlen l <= len raw ->
+  exists raw', put_u32s raw off l = Ok raw' /\ len raw' = len raw.
+Proof.
+  induction l as [|x l IH]; intros raw off Hl; cbn [put_u32s].
+  - exists raw. auto.
+  - rewrite nlen_cons in Hl. put_ok. destruct (IH buf (off + 4) ltac:(lia)) as (raw' & E' & L'). exists raw'. split; [exact E'|lia].
+Qed.
+Lemma BYE_limits g : in_limits (PBYE g) = false -> BYE_marshal g = Err.
+Proof.
+  cbn [in_limits]. intros H. unfold BYE_marshal. consts. unfold nl in H. unfold nlen.
+  destruct (N.ltb_spec 31 (N.of_nat (length (bye_sources g)))) as [Hc|Hc]; [reflexivity|].
+  destruct (N.leb_spec (N.of_nat (length (bye_sources g))) 31); [|lia]. cbn [andb] in H.
+  destruct (N.leb_spec (len (bye_reason g)) 255) as [|Hr]; [discriminate|].
+  pose proof (len_zeros (BYE_size g)) as L0. unfold BYE_size in L0 at 2. consts. unfold nlen in L0.
+  destruct (N.ltb_spec 0 (len (bye_reason g))); [|lia].
+  destruct (put_u32s_ok (bye_sources g) (zeros (BYE_size g)) 4) as (raw' & E' & L'); [unfold nlen; lia|].
+  rewrite E'. cbn [bind]. destruct (N.ltb_spec 255 (len (bye_reason g))); [reflexivity|lia].
+Qed.
+
+(* ---- APP ---- *)
+Lemma APP_limits a : in_limits (PAPP a) = false -> APP_marshal a = Err.
+Proof.
+  cbn [in_limits]. intros H. unfold APP_marshal. change (65535 - 12) with 65523.
+  destruct (N.ltb_spec 65523 (len (app_data a))) as [|Hd]; [reflexivity|].
+  destruct (N.eqb_spec (len (app_name a)) 4) as [Hn|Hn]; cbn [negb]; [|reflexivity].
+  destruct (N.leb_spec (len (app_data a)) 65523); [|lia]. rewrite andb_true_r, andb_true_r in H.
+  apply N.leb_gt in H. rewrite Header_marshal_err by (cbn [h_count]; lia). reflexivity.
+Qed.
+
+(* ---- NACK, SLI ---- *)
+Lemma NACK_limits p : in_limits (PNACK p) = false -> NACK_marshal p = Err.
+Proof.
+  cbn [in_limits]. intros H. apply N.leb_gt in H. unfold NACK_marshal. consts. unfold nl in H. unfold nlen.
+  destruct (N.ltb_spec 255 (N.of_nat (length (nack_pairs p)) + 2)); [reflexivity|lia].
+Qed.
+Lemma SLI_limits p : in_limits (PSLI p) = false -> SLI_marshal p = Err.
+Proof.
+  cbn [in_limits]. intros H. apply N.leb_gt in H. unfold SLI_marshal. consts. unfold nl in H. unfold nlen.
+  destruct (N.ltb_spec 255 (N.of_nat (length (sli_entries p)) + 2)); [reflexivity|lia].
+Qed.
+
+(* ---- REMB ---- *)
+Lemma REMB_limits p : in_limits (PREMB p) = false -> REMB_marshal p = Err.
+Proof.
+  cbn [in_limits]. intros H. unfold REMB_marshal. unfold nl in H. unfold nlen.
+  destruct (N.ltb_spec 255 (N.of_nat (length (remb_ssrcs p)))) as [|Hc]; [reflexivity|].
+  destruct (N.leb_spec (N.of_nat (length (remb_ssrcs p))) 255); [|lia]. cbn [andb] in H.
+  unfold remb_enc. destruct (f32_of_bits (Z.of_N (remb_bitrate p))) as [s m e|s|].
+  - apply negb_false_iff in H. rewrite H. reflexivity.
+  - apply negb_false_iff in H. subst s. reflexivity.
+  - discriminate.
+Qed.
+
+(* ---- outcome algebra for the cases where a panic can precede the error ---- *)
+Definition fails {A} (r : res A) : Prop := r = Err \/ r = Panic.
+Lemma bind_fails_l {A B} (r : res A) (f : A -> res B) : fails r -> fails (bind r f).
+Proof. intros [-> | ->]; [left|right]; reflexivity. Qed.
+Lemma bind_fails_r {A B} (r : res A) (f : A -> res B) :
+  r <> Fuel -> (forall a, r = Ok a -> fails (f a)) -> fails (bind r f).
+Proof. intros NF H. destruct r; cbn [bind]; [apply H; reflexivity|left; reflexivity|right; reflexivity|congruence]. Qed.
+Lemma copy_at_nf dst off src : copy_at dst off src <> Fuel /\ copy_at dst off src <> Err.
+Proof. unfold copy_at. destruct (len dst <? off); split; discriminate. Qed.
+Lemma put_be_at_nf k dst off x : put_be_at k dst off x <> Fuel /\ put_be_at k dst off x <> Err.
+Proof. unfold put_be_at. destruct (len dst <? off + N.of_nat k); [split; discriminate|apply copy_at_nf]. Qed.
+Lemma slice_nf b i j : slice b i j <> Fuel /\ slice b i j <> Err.
+Proof. unfold slice. destruct ((len b <? j) || (j <? i)); split; discriminate. Qed.
+Lemma Header_marshal_nf h : Header_marshal h <> Fuel /\ Header_marshal h <> Panic.
+Proof. unfold Header_marshal. destruct (31 <? h_count h); split; discriminate. Qed.
+Lemma setNBitsOfUint16_nf a b c d : setNBitsOfUint16 a b c d <> Fuel /\ setNBitsOfUint16 a b c d <> Panic.
+Proof. unfold setNBitsOfUint16. destruct (16 <? u16 (c + b)); split; discriminate. Qed.
+
+(* ---- CCFB ---- *)
+Lemma CCMetric_marshal_ok m : exists b, CCMetric_marshal m = Ok b.
+Proof. unfold CCMetric_marshal. do 3 (rewrite setNBitsOfUint16_spec by lia; cbn [bind]). eexists. reflexivity. Qed.
+Lemma metrics_marshal_ok : forall ms, exists b, metrics_marshal ms = Ok b.
+Proof.
+  induction ms as [|m ms [bs IH]]; cbn [metrics_marshal]; [eexists; reflexivity|].
+  destruct (CCMetric_marshal_ok m) as [b ->]. rewrite IH. cbn [bind]. eexists. reflexivity.
+Qed.
+Definition blk_ok (b : CCBlock) : bool := nl (cb_metrics b) <=? 16384.
+Lemma CCBlock_marshal_cases b :
+  (blk_ok b = true -> exists d, CCBlock_marshal b = Ok d) /\ (blk_ok b = false -> CCBlock_marshal b = Err).
+Proof.
+  unfold blk_ok, CCBlock_marshal, nl, nlen. consts. split; intros H.
+  - apply N.leb_le in H. destruct (N.ltb_spec 16384 (N.of_nat (length (cb_metrics b)))); [lia|].
+    destruct (metrics_marshal_ok (cb_metrics b)) as [ms ->]. cbn [bind]. eexists. reflexivity.
+  - apply N.leb_gt in H. destruct (N.ltb_spec 16384 (N.of_nat (length (cb_metrics b)))); [reflexivity|lia].
+Qed.
+Lemma put_blocks_err : forall bs buf off, forallb blk_ok bs = false ->
+  off + fold_right (fun b acc => CCBlock_len b + acc) 0 bs <= len buf -> put_blocks buf off bs = Err.
+Proof.
+  induction bs as [|b bs IH]; intros buf off Hf Hl; cbn [forallb put_blocks fold_right] in *; [discriminate|].
+  destruct (CCBlock_marshal_cases b) as [C1 C2]. destruct (blk_ok b); cbn [andb] in Hf.
+  - destruct (C1 eq_refl) as [d ->]. cbn [bind]. copy_ok. apply IH; [exact Hf|lia].
+  - rewrite (C2 eq_refl). reflexivity.
+Qed.
+Lemma put_blocks_fails : forall bs buf off, forallb blk_ok bs = false -> fails (put_blocks buf off bs).
+Proof.
+  induction bs as [|b bs IH]; intros buf off Hf; cbn [forallb put_blocks] in *; [discriminate|].
+  destruct (CCBlock_marshal_cases b) as [C1 C2]. destruct (blk_ok b); cbn [andb] in Hf.
+  - destruct (C1 eq_refl) as [d ->]. cbn [bind]. apply bind_fails_r; [apply copy_at_nf|]. intros buf' _. apply IH. exact Hf.
+  - rewrite (C2 eq_refl). left. reflexivity.
+Qed.
+
+Lemma CCFB_header_marshal p : exists hb, Header_marshal (CCFB_header p) = Ok hb.
+Proof. unfold CCFB_header. consts. eexists. apply Header_marshal_spec. lia. Qed.
+
+(* Err whenever the 16-bit length field does not wrap (total size below 256 KiB) *)
+Lemma CCFB_limits_nowrap p : CCFB_size p / 4 - 1 < 65536 -> in_limits (PCCFB p) = false -> CCFB_marshal p = Err.
+Proof.
+  intros Hs H. cbn [in_limits] in H. fold blk_ok in H. unfold CCFB_marshal.
+  destruct (CCFB_header_marshal p) as [hb ->]. cbn [bind].
+  unfold CCFB_header at 1 2. cbn [h_len]. unfold u16. rewrite N.mod_small by exact Hs.
+  pose proof (len_zeros (4 * (CCFB_size p / 4 - 1 + 1))) as L0.
+  assert (Hsz : CCFB_size p = 8 + fold_right (fun b acc => CCBlock_len b + acc) 0 (cc_blocks p) + 4) by reflexivity.
+  consts. rewrite slice_ok by lia. cbn [bind]. copy_ok. put_ok.
+  rewrite put_blocks_err; [reflexivity|exact H|lia].
+Qed.
+(* in general: never Ok; the error can be pre-empted by a slice-bounds panic when the length field wraps *)
+Lemma CCFB_limits p : in_limits (PCCFB p) = false -> fails (CCFB_marshal p).
+Proof.
+  intros H. cbn [in_limits] in H. fold blk_ok in H. unfold CCFB_marshal.
+  destruct (CCFB_header_marshal p) as [hb ->]. cbn [bind].
+  apply bind_fails_r; [apply slice_nf|intros ? _].
+  apply bind_fails_r; [apply copy_at_nf|intros ? _].
+  apply bind_fails_r; [apply put_be_at_nf|intros ? _].
+  apply bind_fails_l. apply put_blocks_fails. exact H.
+Qed.
+
+(* ---- TWCC ---- *)
+Lemma setNBitsOfUint16_OE a b c d : (exists r, setNBitsOfUint16 a b c d = Ok r) \/ setNBitsOfUint16 a b c d = Err.
+Proof. unfold setNBitsOfUint16. destruct (16 <? u16 (c + b)); [right; reflexivity|left; eexists; reflexivity]. Qed.
+Lemma svc_put_OE : forall l dst nb i, (exists r, svc_put dst nb i l = Ok r) \/ svc_put dst nb i l = Err.
+Proof.
+  induction l as [|s l IH]; intros dst nb i; cbn [svc_put]; [left; eexists; reflexivity|].
+  destruct (setNBitsOfUint16_OE dst nb (u16 (u16 (nb * u16 i) + 2)) s) as [[r ->]| ->]; cbn [bind]; [apply IH|right; reflexivity].
+Qed.
+(* the 15th one-bit symbol / the 8th two-bit symbol does not fit the 16-bit word *)
+Lemma svc_put_err1 : forall l i dst, i <= 14 -> 15 <= i + nlen l -> svc_put dst 1 i l = Err.
+Proof.
+  induction l as [|s l IH]; intros i dst Hi Hl.
+  - unfold nlen in Hl. cbn [length N.of_nat] in Hl. lia.
+  - rewrite nlen_cons in Hl. cbn [svc_put].
+    assert (E : u16 (u16 (1 * u16 i) + 2) = i + 2) by (unfold u16; lia). rewrite E.
+    destruct (N.eq_dec i 14) as [->|Hn].
+    + rewrite setNBitsOfUint16_err by lia. reflexivity.
+    + rewrite setNBitsOfUint16_spec by lia. cbn [bind]. apply IH; lia.
+Qed.
+Lemma svc_put_err2 : forall l i dst, i <= 7 -> 8 <= i + nlen l -> svc_put dst 2 i l = Err.
+Proof.
+  induction l as [|s l IH]; intros i dst Hi Hl.
+  - unfold nlen in Hl. cbn [length N.of_nat] in Hl. lia.
+  - rewrite nlen_cons in Hl. cbn [svc_put].
+    assert (E : u16 (u16 (2 * u16 i) + 2) = 2 * i + 2) by (unfold u16; lia). rewrite E.
+    destruct (N.eq_dec i 7) as [->|Hn].
+    + rewrite setNBitsOfUint16_err by lia. reflexivity.
+    + rewrite setNBitsOfUint16_spec by lia. cbn [bind]. apply IH; lia.
+Qed.
+Lemma TChunk_marshal_err c : svc_len_ok c = false -> TChunk_marshal c = Err.
+Proof.
+  destruct c as [t s r|t ss l]; cbn [svc_len_ok TChunk_marshal]; [discriminate|]. intros H.
+  unfold SVC_marshal. do 2 (rewrite setNBitsOfUint16_spec by lia; cbn [bind]).
+  unfold numOfBitsOfSymbolSize. consts. unfold nl in H.
+  destruct (N.eqb_spec ss 0) as [->|H0].
+  - apply N.leb_gt in H. rewrite svc_put_err1; [reflexivity|lia|unfold nlen; lia].
+  - destruct (N.eqb_spec ss 1) as [->|H1]; [|discriminate].
+    apply N.leb_gt in H. rewrite svc_put_err2; [reflexivity|lia|unfold nlen; lia].
+Qed.
+Lemma TChunk_marshal_OE c : (exists b, TChunk_marshal c = Ok b) \/ TChunk_marshal c = Err.
+Proof.
+  destruct c as [t s r|t ss l]; cbn [TChunk_marshal].
+  - left. rewrite RLC_marshal_spec. eexists. reflexivity.
+  - unfold SVC_marshal. do 2 (rewrite setNBitsOfUint16_spec by lia; cbn [bind]).
+    match goal with |- context [svc_put ?d ?nb ?i ?l] => destruct (svc_put_OE l d nb i) as [[r ->]| ->] end; cbn [bind].
+    + left. eexists. reflexivity.
+    + right. reflexivity.
+Qed.
+Lemma tchunks_marshal_OE : forall cs, (exists b, tchunks_marshal cs = Ok b) \/ tchunks_marshal cs = Err.
+Proof.
+  induction cs as [|c cs IH]; cbn [tchunks_marshal]; [left; eexists; reflexivity|].
+  destruct (TChunk_marshal_OE c) as [[b ->]| ->]; cbn [bind]; [|right; reflexivity].
+  destruct IH as [[bs ->]| ->]; cbn [bind]; [left; eexists; reflexivity|right; reflexivity].
+Qed.
+Lemma tchunks_marshal_err : forall cs, forallb svc_len_ok cs = false -> tchunks_marshal cs = Err.
+Proof.
+  induction cs as [|c cs IH]; cbn [tchunks_marshal forallb]; [discriminate|]. intros H.
+  destruct (svc_len_ok c) eqn:Ec; cbn [andb] in H.
+  - destruct (TChunk_marshal_OE c) as [[b ->]| ->]; cbn [bind]; [|reflexivity]. rewrite (IH H). reflexivity.
+  - rewrite (TChunk_marshal_err c Ec). reflexivity.
+Qed.
+
+Lemma RecvDelta_marshal_OE d : (exists b, RecvDelta_marshal d = Ok b) \/ RecvDelta_marshal d = Err.
+Proof.
+  unfold RecvDelta_marshal.
+  destruct (_ && _ && _); [left; eexists; reflexivity|]. destruct (_ && _ && _); [left; eexists; reflexivity|right; reflexivity].
+Qed.
+Lemma RecvDelta_marshal_err d : delta_in_range d = false -> RecvDelta_marshal d = Err.
+Proof.
+  unfold delta_in_range, RecvDelta_marshal. consts. change (Z.of_N 250) with 250%Z. intros H.
+  destruct (N.eqb_spec (rd_type d) 1) as [E1|E1].
+  - cbn [andb]. rewrite H. destruct (N.eqb_spec (rd_type d) 2); [lia|]. reflexivity.
+  - cbn [andb]. destruct (N.eqb_spec (rd_type d) 2) as [E2|E2]; [|reflexivity]. cbn [andb]. rewrite H. reflexivity.
+Qed.
+Lemma deltas_marshal_err : forall ds, forallb delta_in_range ds = false -> deltas_marshal ds = Err.
+Proof.
+  induction ds as [|d ds IH]; cbn [deltas_marshal forallb]; [discriminate|]. intros H.
+  destruct (delta_in_range d) eqn:Ed; cbn [andb] in H.
+  - destruct (RecvDelta_marshal_OE d) as [[b ->]| ->]; cbn [bind]; [|reflexivity]. rewrite (IH H). reflexivity.
+  - rewrite (RecvDelta_marshal_err d Ed). reflexivity.
+Qed.
+
+(* the linear form (content within 16 bits): always Err *)
+Lemma TWCC_limits_fast t : twcc_exact_len t <= 65532 -> in_limits (PTWCC t) = false -> TWCC_marshal t = Err.
+Proof.
+  intros Hs H. cbn [in_limits] in H. unfold TWCC_marshal.
+  destruct (N.ltb_spec 65532 (twcc_exact_len t)); [lia|].
+  destruct (N.leb_spec (h_count (tw_hdr t)) 31) as [Hc|Hc].
+  - cbn [andb] in H. unfold Header_marshal. destruct (N.ltb_spec 31 (h_count (tw_hdr t))); [lia|]. cbn [bind].
+    destruct (forallb svc_len_ok (tw_chunks t)) eqn:Ec.
+    + rewrite andb_true_r in H. destruct (tchunks_marshal_OE (tw_chunks t)) as [[cs ->]| ->]; cbn [bind]; [|reflexivity].
+      rewrite (deltas_marshal_err _ H). reflexivity.
+    + rewrite (tchunks_marshal_err _ Ec). reflexivity.
+  - rewrite Header_marshal_err by lia. reflexivity.
+Qed.
+
+(* the statement-by-statement form (16-bit size arithmetic wraps): a slice-bounds panic can pre-empt the error *)
+Lemma put_tchunks_res : forall cs payload off,
+  put_tchunks payload off cs <> Fuel /\ (forallb svc_len_ok cs = false -> fails (put_tchunks payload off cs)).
+Proof.
+  induction cs as [|c cs IH]; intros payload off; cbn [put_tchunks forallb].
+  - split; [discriminate|discriminate].
+  - destruct (TChunk_marshal_OE c) as [[b Eb]|Eb]; rewrite Eb; cbn [bind].
+    + destruct (len payload <? off); [split; [discriminate|right; reflexivity]|].
+      destruct (copy_at payload off b) as [p'| | |] eqn:Ec; cbn [bind].
+      * destruct (IH p' (off + 2)) as [I1 I2]. split; [exact I1|]. intros H.
+        destruct (svc_len_ok c) eqn:El; cbn [andb] in H; [apply I2; exact H|].
+        rewrite (TChunk_marshal_err c El) in Eb. discriminate.
+      * split; [discriminate|left; reflexivity].
+      * split; [discriminate|right; reflexivity].
+      * exfalso. apply (proj1 (copy_at_nf payload off b)). exact Ec.
+    + split; [discriminate|left; reflexivity].
+Qed.
+Lemma put_deltas_res : forall ds payload off,
+  put_deltas payload off ds <> Fuel /\ (forallb delta_in_range ds = false -> fails (put_deltas payload off ds)).
+Proof.
+  induction ds as [|d ds IH]; intros payload off; cbn [put_deltas forallb].
+  - split; [discriminate|discriminate].
+  - destruct (RecvDelta_marshal_OE d) as [[b Eb]|Eb]; rewrite Eb; cbn [bind].
+    + destruct (len payload <? off); [split; [discriminate|right; reflexivity]|].
+      destruct (copy_at payload off b) as [p'| | |] eqn:Ec; cbn [bind].
+      * match goal with |- context [put_deltas p' ?o ds] => destruct (IH p' o) as [I1 I2] end.
+        split; [exact I1|]. intros H.
+        destruct (delta_in_range d) eqn:El; cbn [andb] in H; [apply I2; exact H|].
+        rewrite (RecvDelta_marshal_err d El) in Eb. discriminate.
+      * split; [discriminate|left; reflexivity].
+      * split; [discriminate|right; reflexivity].
+      * exfalso. apply (proj1 (copy_at_nf payload off b)). exact Ec.
+    + split; [discriminate|left; reflexivity].
+Qed.
+
+Lemma TWCC_limits t : in_limits (PTWCC t) = false -> fails (TWCC_marshal t).
+Proof.
+  intros H. unfold TWCC_marshal. destruct (N.ltb_spec 65532 (twcc_exact_len t)) as [Hs|Hs].
+  2:{ left. pose proof (TWCC_limits_fast t Hs H) as E. unfold TWCC_marshal in E.
+      destruct (N.ltb_spec 65532 (twcc_exact_len t)); [lia|exact E]. }
+  cbn [in_limits] in H. unfold TWCC_marshal_slow.
+  destruct (N.leb_spec (h_count (tw_hdr t)) 31) as [Hc|Hc].
+  2:{ rewrite Header_marshal_err by lia. left. reflexivity. }
+  cbn [andb] in H.
+  apply bind_fails_r; [apply Header_marshal_nf|intros hb _].
+  destruct (TWCC_size t <? c_headerLength); [right; reflexivity|].
+  do 5 (apply bind_fails_r; [apply put_be_at_nf|intros ? _]).
+  match goal with |- context [put_tchunks ?p ?o ?cs] => destruct (put_tchunks_res cs p o) as [T1 T2] end.
+  destruct (forallb svc_len_ok (tw_chunks t)) eqn:Ec.
+  - rewrite andb_true_r in H. apply bind_fails_r; [exact T1|intros p1 _].
+    match goal with |- context [put_deltas ?p ?o ?ds] => destruct (put_deltas_res ds p o) as [D1 D2] end.
+    apply bind_fails_l. apply D2. exact H.
+  - apply bind_fails_l. apply T2. reflexivity.
+Qed.
+
+(* ---- refutations of "always Err": the 16-bit length/size arithmetic wraps and a slice-bounds panic comes first ---- *)
+(* one report block of 131064 metric blocks: Header.Length wraps to 0, the 4-octet buffer cannot take the sender SSRC *)
+Lemma CCFB_limits_Err_refuted :
+  exists p, in_limits (PCCFB p) = false /\ CCFB_marshal p = Panic.
+Proof.
+  exists (mkCCFB 0 [mkCCBlock 0 0 (repeat (mkCCMetric false 0 0) (N.to_nat 131064))] 0).
+  vm_compute. split; reflexivity.
+Qed.
+(* 32757 chunks and one delta: packetLen wraps to 0, make([]byte, size-headerLength) panics *)
+Lemma TWCC_limits_Err_refuted :
+  exists t, in_limits (PTWCC t) = false /\ TWCC_marshal t = Panic.
+Proof.
+  exists (mkTWCC (mkHeader false 15 205 0) 0 0 0 0 0 0 (repeat (RLC 0 0 0) (N.to_nat 32757)) [mkRecvDelta 0 0]).
+  vm_compute. split; reflexivity.
+Qed.
+
+(* ---- Marshal never exhausts fuel (no marshaller has a fuelled loop): needed to sequence packets in a compound ---- *)
+Lemma bind_nf {A B} (r : res A) (f : A -> res B) : r <> Fuel -> (forall a, f a <> Fuel) -> bind r f <> Fuel.
+Proof. intros H1 H2. destruct r; cbn [bind]; try discriminate; [apply H2|congruence]. Qed.
+Ltac nf_step :=
+  first
+  [ discriminate
+  | apply bind_nf; [|intros ?]
+  | apply (proj1 (copy_at_nf _ _ _))
+  | apply (proj1 (put_be_at_nf _ _ _ _))
+  | apply (proj1 (slice_nf _ _ _))
+  | apply (proj1 (Header_marshal_nf _))
+  | apply (proj1 (setNBitsOfUint16_nf _ _ _ _))
+  | match goal with |- (if ?c then _ else _) <> Fuel => destruct c end
+  | match goal with |- (let '(_, _) := ?x in _) <> Fuel => destruct x end
+  | match goal with |- (match ?x with Ok _ => _ | Err => _ | Panic => _ | Fuel => _ end) <> Fuel => fail 1 end ].
+Ltac nf := repeat nf_step.
+
+Lemma RRep_marshal_nf r : RRep_marshal r <> Fuel.
+Proof. unfold RRep_marshal. nf. Qed.
+Lemma put_reports_nf : forall rs raw off, put_reports raw off rs <> Fuel.
+Proof. induction rs as [|r rs IH]; intros raw off; cbn [put_reports]; nf; try apply RRep_marshal_nf; try apply IH. Qed.
+Lemma SR_marshal_nf s : SR_marshal s <> Fuel.
+Proof. unfold SR_marshal. nf. apply put_reports_nf. Qed.
+Lemma RR_marshal_nf s : RR_marshal s <> Fuel.
+Proof. unfold RR_marshal. nf. apply put_reports_nf. Qed.
+
+Lemma items_marshal_nf : forall its, items_marshal its <> Fuel.
+Proof. induction its as [|i its IH]; cbn [items_marshal]; nf; try exact IH; unfold SItem_marshal; nf. Qed.
+Lemma put_chunks_nf : forall cs raw off, put_chunks raw off cs <> Fuel.
+Proof.
+  induction cs as [|c cs IH]; intros raw off; cbn [put_chunks]; nf; try apply IH.
+  all: unfold SChunk_marshal; nf; apply items_marshal_nf.
+Qed.
+Lemma SDES_marshal_nf s : SDES_marshal s <> Fuel.
+Proof. unfold SDES_marshal. nf. apply put_chunks_nf. Qed.
+
+Lemma put_u32s_nf : forall l raw off, put_u32s raw off l <> Fuel.
+Proof. induction l as [|x l IH]; intros raw off; cbn [put_u32s]; nf; apply IH. Qed.
+Lemma BYE_marshal_nf g : BYE_marshal g <> Fuel.
+Proof. unfold BYE_marshal. nf; apply put_u32s_nf. Qed.
+Lemma APP_marshal_nf a : APP_marshal a <> Fuel.
+Proof. unfold APP_marshal. nf. Qed.
+Lemma NACK_marshal_nf p : NACK_marshal p <> Fuel.
+Proof. unfold NACK_marshal. nf. Qed.
+Lemma PLI_marshal_nf p : PLI_marshal p <> Fuel.
+Proof. unfold PLI_marshal. nf. Qed.
+Lemma RRR_marshal_nf p : RRR_marshal p <> Fuel.
+Proof. unfold RRR_marshal. nf. Qed.
+Lemma SLI_marshal_nf p : SLI_marshal p <> Fuel.
+Proof. unfold SLI_marshal. nf. Qed.
+Lemma FIR_marshal_nf p : FIR_marshal p <> Fuel.
+Proof. unfold FIR_marshal. nf. Qed.
+Lemma REMB_marshal_nf p : REMB_marshal p <> Fuel.
+Proof. unfold REMB_marshal. nf. destruct (remb_enc _) as [[e m]|]; discriminate. Qed.
+
+Lemma put_blocks_nf : forall bs buf off, put_blocks buf off bs <> Fuel.
+Proof.
+  induction bs as [|b bs IH]; intros buf off; cbn [put_blocks]; nf; try apply IH.
+  all: destruct (CCBlock_marshal_cases b) as [C1 C2]. destruct (blk_ok b); [destruct (C1 eq_refl) as [d ->]|rewrite (C2 eq_refl)]; discriminate.
+Qed.
+Lemma CCFB_marshal_nf p : CCFB_marshal p <> Fuel.
+Proof. unfold CCFB_marshal. nf. apply put_blocks_nf. Qed.
+
+Lemma TWCC_marshal_nf t : TWCC_marshal t <> Fuel.
+Proof.
+  unfold TWCC_marshal. destruct (65532 <? twcc_exact_len t).
+  - unfold TWCC_marshal_slow. nf; [apply put_tchunks_res|apply put_deltas_res].
+  - nf.
+    + destruct (tchunks_marshal_OE (tw_chunks t)) as [[b ->]| ->]; discriminate.
+    + clear. induction (tw_deltas t) as [|d ds IH]; cbn [deltas_marshal]; nf; [|exact IH].
+      destruct (RecvDelta_marshal_OE d) as [[b ->]| ->]; discriminate.
+Qed.
+
+(* the reflection-driven writer *)
+Lemma write_nf : forall v t room, write t v room <> Fuel.
+Proof.
+  fix IH 1. intros v t room. destruct v as [n|vs|vs].
+  - destruct t; cbn [write scalar_size]; nf.
+  - destruct t; cbn [write scalar_size]; try discriminate.
+    revert room. induction vs as [|x vs IHvs]; intros room; nf; [apply IH|apply IHvs].
+  - destruct t; cbn [write scalar_size]; try discriminate.
+    revert fs room. induction vs as [|x vs IHvs]; intros fs room; [discriminate|].
+    destruct fs as [|[name ft om ex] fs]; [discriminate|]. nf; try apply IHvs. apply IH.
+Qed.
+Lemma write_blocks_nf : forall bs room, write_blocks bs room <> Fuel.
+Proof. induction bs as [|b bs IH]; intros room; cbn [write_blocks]; nf; [apply write_nf|apply IH]. Qed.
+Lemma XR_marshal_nf x : XR_marshal x <> Fuel.
+Proof.
+  unfold XR_marshal. assert (H : XR_marshal_full x <> Fuel); [|destruct (XR_marshal_full x); cbn [res_map]; congruence].
+  unfold XR_marshal_full. nf. apply write_blocks_nf.
+Qed.
+
+Lemma marshal_packet_nf : forall p, marshal_packet p <> Fuel.
+Proof.
+  fix IH 1. intros p. destruct p as [x|x|x|x|x|x|x|x|x|x|x|x|x|x|b|l]; cbn [marshal_packet].
+  - apply SR_marshal_nf. - apply RR_marshal_nf. - apply SDES_marshal_nf. - apply BYE_marshal_nf. - apply APP_marshal_nf.
+  - apply NACK_marshal_nf. - apply RRR_marshal_nf. - apply TWCC_marshal_nf. - apply CCFB_marshal_nf. - apply PLI_marshal_nf.
+  - apply SLI_marshal_nf. - apply REMB_marshal_nf. - apply FIR_marshal_nf. - apply XR_marshal_nf. - discriminate.
+  - apply bind_nf.
+    + destruct l as [|q r]; [discriminate|]. destruct q; cbn [Compound_validate]; try discriminate;
+        (induction r as [|q r IHr]; cbn [validate_rest]; [discriminate|]; destruct q; try discriminate; try exact IHr;
+         destruct (sdes_has_cname _); discriminate).
+    + intros _. induction l as [|q r IHr]; [discriminate|]. apply bind_nf; [apply IH|]. intros d. apply bind_nf; [exact IHr|]. discriminate.
+Qed.
+
+(* ---- C08 over the packet sum ---- *)
+Definition not_compound (p : packet) : Prop := match p with PCompound _ => False | _ => True end.
+
+Lemma in_limits_marshal_simple p : not_compound p -> in_limits p = false -> fails (marshal_packet p).
+Proof.
+  intros Hn H. destruct p; cbn [marshal_packet]; try (cbn [in_limits] in H; discriminate H).
+  - left. apply SR_limits. exact H.
+  - left. apply RR_limits. exact H.
+  - left. apply SDES_limits. exact H.
+  - left. apply BYE_limits. exact H.
+  - left. apply APP_limits. exact H.
+  - left. apply NACK_limits. exact H.
+  - apply TWCC_limits. exact H.
+  - apply CCFB_limits. exact H.
+  - left. apply SLI_limits. exact H.
+  - left. apply REMB_limits. exact H.
+  - contradiction.
+Qed.
+
+Lemma validate_rest_err : forall r, compound_rest_ok r = false -> validate_rest r = Err.
+Proof.
+  induction r as [|p r IH]; cbn [compound_rest_ok validate_rest]; [reflexivity|].
+  destruct p; cbn [is_cname_sdes]; try reflexivity; intros H; [apply IH; exact H|rewrite H; reflexivity].
+Qed.
+Lemma Compound_validate_err l : compound_ok l = false -> Compound_validate l = Err.
+Proof.
+  destruct l as [|p r]; [reflexivity|]. destruct p; cbn [compound_ok Compound_validate]; try reflexivity; apply validate_rest_err.
+Qed.
+
+(* outside the limits Marshal returns an error or (TWCC / CCFB with wrapped 16-bit sizes only) panics; it never returns bytes *)
+Theorem in_limits_marshal : forall p, in_limits p = false -> marshal_packet p = Err \/ marshal_packet p = Panic.
+Proof.
+  fix IH 1. intros p H. destruct p as [x|x|x|x|x|x|x|x|x|x|x|x|x|x|b|l];
+    try (apply in_limits_marshal_simple; [exact I|exact H]).
+  change (fails (marshal_packet (PCompound l))).
+  pose proof (marshal_packet_nf (PCompound l)) as NF.
+  cbn [in_limits marshal_packet] in *.
+  destruct (compound_ok l) eqn:Ec; [|rewrite (Compound_validate_err l Ec); left; reflexivity].
+  cbn [andb] in H. destruct (Compound_validate l) as [u| | |]; cbn [bind] in *;
+    [|left; reflexivity|right; reflexivity|exfalso; apply NF; reflexivity].
+  clear Ec u NF.
+  revert l H. fix IHl 1. intros l H. destruct l as [|q r]; [discriminate H|].
+  destruct (in_limits q) eqn:Eq.
+  - cbn [andb] in H. apply bind_fails_r; [apply marshal_packet_nf|]. intros d _. apply bind_fails_l. apply IHl. exact H.
+  - apply bind_fails_l. apply IH. exact Eq.
+Qed.
+
+Corollary in_limits_marshal_not_ok p b : in_limits p = false -> marshal_packet p <> Ok b.
+Proof. intros H. destruct (in_limits_marshal p H) as [E|E]; rewrite E; discriminate. Qed.
+
+(* per packet type the outcome is the error, except where 16-bit size arithmetic can wrap first *)
+Theorem in_limits_marshal_err p : in_limits p = false ->
+  match p with
+  | PCompound _ => True
+  | PTWCC t => twcc_exact_len t <= 65532 -> marshal_packet p = Err
+  | PCCFB c => CCFB_size c / 4 - 1 < 65536 -> marshal_packet p = Err
+  | _ => marshal_packet p = Err
+  end.
+Proof.
+  intros H. destruct p; cbn [marshal_packet]; try (cbn [in_limits] in H; discriminate H); try exact I.
+  - apply SR_limits. exact H.
+  - apply RR_limits. exact H.
+  - apply SDES_limits. exact H.
+  - apply BYE_limits. exact H.
+  - apply APP_limits. exact H.
+  - apply NACK_limits. exact H.
+  - intros Hs. apply TWCC_limits_fast; assumption.
+  - intros Hs. apply CCFB_limits_nowrap; assumption.
+  - apply SLI_limits. exact H.
+  - apply REMB_limits. exact H.
+Qed.
+
+Print Assumptions getNBitsFromByte_spec.
+Print Assumptions setNBitsOfUint16_spec.
+Print Assumptions setNBitsOfUint16_err.
+Print Assumptions get24BitsFromBytes_spec.
+Print Assumptions get24BitsFromBytes_be.
+Print Assumptions RLC_word.
+Print Assumptions RLC_word_roundtrip.
+Print Assumptions RLC_value_roundtrip.
+Print Assumptions RLC_marshal_spec.
+Print Assumptions SVC_word_roundtrip.
+Print Assumptions SVC_value_roundtrip.
+Print Assumptions RecvDelta_small.
+Print Assumptions RecvDelta_large.
+Print Assumptions RecvDelta_roundtrip_1.
+Print Assumptions RecvDelta_roundtrip_2.
+Print Assumptions RecvDelta_value_roundtrip.
+Print Assumptions RecvDelta_unmarshal_badlen.
+Print Assumptions CCMetric_word.
+Print Assumptions CCMetric_value_roundtrip.
+Print Assumptions SR_limits.
+Print Assumptions RR_limits.
+Print Assumptions SDES_limits.
+Print Assumptions BYE_limits.
+Print Assumptions APP_limits.
+Print Assumptions NACK_limits.
+Print Assumptions SLI_limits.
+Print Assumptions REMB_limits.
+Print Assumptions CCFB_limits_nowrap.
+Print Assumptions CCFB_limits.
+Print Assumptions CCFB_limits_Err_refuted.
+Print Assumptions TWCC_limits_fast.
+Print Assumptions TWCC_limits.
+Print Assumptions TWCC_limits_Err_refuted.
+Print Assumptions marshal_packet_nf.
+Print Assumptions in_limits_marshal.
+Print Assumptions in_limits_marshal_not_ok.
+Print Assumptions in_limits_marshal_err.
